@@ -16,6 +16,8 @@ Clause map
   valid, matching, at least as good as every other candidate in the documented order `Better`
   (precedence, then length, then String over RegExp, then earlier rule) and is the only such
   candidate; `refToken_rules` spells the four rules out one by one; `refToken_none`.
+* agreement of the generated lexer's scan with the documented choice — `lexScan_flat`: for all
+  token sets whose valid tokens share one precedence, all inputs: `lexScan = refToken`.
 * the implementation's cut-off (see DIFFERENCES) — `lexScan` and `lexScan_sound`: whatever the scan
   returns is a valid matching candidate and is the documented choice among all candidates of the
   same length (rules 4, 5 and the same-length part of rule 2).
@@ -109,6 +111,38 @@ theorem lexScan_sound (toks : List Token) (valid : Nat → Bool) (input : List N
     ∀ j, IsCand toks valid input (j, c.2) → Better (keyOf toks c) (keyOf toks (j, c.2)) :=
   lexScan_ok toks valid input c h
 
+/-- `lexScan_flat`: when all valid tokens have the same lexical precedence the cut-off can never
+fire and the generated lexer's scan returns exactly the documented choice (longest match, then
+String over RegExp, then rule order). -/
+theorem lexScan_flat (toks : List Token) (valid : Nat → Bool) (input : List Nat) (p : Int)
+    (hflat : FlatPrec toks valid p) : lexScan toks valid input = refToken toks valid input := by
+  cases hr : refToken toks valid input with
+  | none =>
+    have hno := (refToken_none toks valid input).1 hr
+    cases hs : lexScan toks valid input with
+    | none => rfl
+    | some c => exact absurd (lexScan_sound toks valid input c hs).1 (hno c)
+  | some b =>
+    obtain ⟨hb, hbest, _⟩ := refToken_spec toks valid input b hr
+    have hreach := scan_flat toks valid input p hflat input (toks.map (·.re)) 0 none none (by simp) (Nat.zero_le _)
+      (by simp [derivs]) (Or.inl rfl)
+      (by intro c' hc' hle; have := hc'.2.2.1; omega) b hb
+    obtain ⟨c, hc, hle⟩ := hreach
+    have hcs : lexScan toks valid input = some c := hc
+    obtain ⟨hcc, hsame⟩ := lexScan_sound toks valid input c hcs
+    have hbc := hbest c hcc
+    -- equal precedence: `b` at least as good as `c` forces `c.2 ≤ b.2`, so the lengths agree
+    have hpb := hflat b.1 hb.1 hb.2.1
+    have hpc := hflat c.1 hcc.1 hcc.2.1
+    have hlen : b.2 = c.2 := by
+      simp only [Better, keyOf] at hbc
+      omega
+    have hcb : Better (keyOf toks c) (keyOf toks b) := by
+      have := hsame b.1 (by rw [← hlen]; exact hb)
+      rw [← hlen] at this
+      exact this
+    rw [hcs, keyOf_inj toks (Better.antisymm hcb hbc)]
+
 /-- `refTokenize_progress`: any fuel above the input length gives the same answer, i.e. the
 tokenizer never stops for lack of fuel (each step consumes at least one character). -/
 theorem refTokenize_progress (choose : List Nat → Option Cand) (isExtra : Nat → Bool) (input : List Nat)
@@ -199,6 +233,10 @@ example : refToken exToks (fun _ => true) [97] = some (0, 1) := by decide       
 example : refToken exToks (fun _ => true) [97, 97, 98] = some (2, 3) := by decide  -- longest match
 example : refToken exToks (fun i => i != 2) [97, 97, 98] = some (1, 2) := by decide  -- only valid tokens
 example : lexScan exToks (fun _ => true) [97, 97, 98] = some (2, 3) := by decide
+example : FlatPrec exToks (fun _ => true) 0 := by
+  intro i hi _
+  have : i = 0 ∨ i = 1 ∨ i = 2 := by simp [exToks] at hi; omega
+  rcases this with rfl | rfl | rfl <;> rfl
 example : refTokenize (refToken exToks (fun _ => true)) (fun c => c == 32) [97, 32, 97, 97, 32, 98] =
     some [(0, 0, 1), (1, 2, 4), (2, 5, 6)] := by decide
 
